@@ -16,6 +16,15 @@ class _Unconfirmed(AnalysisError):
     pass
 
 
+def _unexpected_gaps(mod):
+    """Modelling gaps of this run that the property's check does not account for itself
+    (EXPECTED_GAPS of the check module: exact (kind, what) pairs or (kind, '*'))."""
+    from . import interp as _interp
+    expected = set(getattr(mod, 'EXPECTED_GAPS', ()))
+    return sorted({g for g in _interp.GAP_EVENTS
+                   if (g[0], g[1]) not in expected and (g[0], '*') not in expected})
+
+
 def run_one(pid, tier, repo, quiet=False, out_dir=None):
     ck = Check(pid, tier, repo, out_dir=out_dir, quiet=quiet)
     from . import interp as _interp
@@ -24,10 +33,17 @@ def run_one(pid, tier, repo, quiet=False, out_dir=None):
         mod = importlib.import_module('vf.props.' + pid.lower())
         prog = Program(repo)
         mod.run(ck, prog, tier)
-        expected = set(getattr(mod, 'EXPECTED_GAPS', ()))
-        gaps = sorted({g for g in _interp.GAP_EVENTS if (g[0], g[1]) not in expected})
+        gaps = _unexpected_gaps(mod)
         ck.extra['modelling_gaps'] = ['%s %s at %s' % g for g in gaps][:20]
-        if gaps and ck.violations:
+        structural = [v for v in ck.violations if v['rule'] in ck.structural_rules]
+        if gaps and structural:
+            # rules decided on the source text stand; value-based mismatches are dropped
+            dropped = [v for v in ck.violations if v not in structural]
+            if dropped:
+                ck.extra['unconfirmed_mismatches'] = sorted({v['rule'] for v in dropped})
+            ck.violations = structural
+            ck.floor_failures = []
+        elif gaps and ck.violations:
             # a mismatch downstream of a construct the interpreter does not model is not evidence
             rules = sorted({v['rule'] for v in ck.violations})
             raise _Unconfirmed(
@@ -55,10 +71,11 @@ def run_one(pid, tier, repo, quiet=False, out_dir=None):
         _error_evidence(ck, str(exc))
         return 2
     except AnalysisError as exc:
-        gaps = sorted({g for g in _interp.GAP_EVENTS
-                       if (g[0], g[1]) not in set(getattr(sys.modules.get(
-                           'vf.props.' + pid.lower()), 'EXPECTED_GAPS', ()))})
-        if ck.violations and gaps:
+        gaps = _unexpected_gaps(sys.modules.get('vf.props.' + pid.lower()))
+        structural = [v for v in ck.violations if v['rule'] in ck.structural_rules]
+        if gaps and structural:
+            ck.violations = structural
+        elif ck.violations and gaps:
             print('ANALYSIS-ERROR property=%s %s (and %d unconfirmed mismatch(es) downstream of '
                   'unmodelled constructs: %s)' % (pid, exc, len(ck.violations),
                                                   '; '.join('%s %s at %s' % g for g in gaps[:3])))
